@@ -315,7 +315,7 @@ def gen_method(rng, used_names):
     oneway = 0.15 <= r < 0.27
     np = rng.choice([0, 0, 1, 1, 2, 2, 3, 4])
     params, pn = [], set()
-    explicit = rng.random() < 0.3
+    explicit = rng.random() < 0.4
     for i in range(np):
         while True:
             w = rng.choice(PARAM_WORDS)
@@ -347,11 +347,13 @@ def gen_method(rng, used_names):
             p["gname"] = ["T", "U", "V", "W"][gi]
             gi += 1
     uses_ref = any(has_ref(p["ty"]) for p in params)
+    nref = sum(1 for p in params if has_ref(p["ty"]))
     m = {
         "name": name,
         "rename": rng.choice(METHOD_RENAMES) if rng.random() < 0.3 else None,
         "more": more, "oneway": oneway,
-        "lifetimes": "explicit" if (explicit and uses_ref) else "elided",
+        "lifetimes": ("explicit2" if (nref >= 2 and rng.random() < 0.6) else "explicit")
+                     if (explicit and uses_ref) else "elided",
         "bounds": rng.choice(["inline", "where"]),
         "attr_order": rng.random() < 0.5,       # `rename` before or after more/oneway
         "out": "unit" if (oneway or rng.random() < 0.3) else "out",
@@ -359,6 +361,8 @@ def gen_method(rng, used_names):
     }
     if rng.random() < 0.15:
         m["style"] = "future"
+    if m["out"] == "out" and m["lifetimes"] == "elided" and rng.random() < 0.25:
+        m["out"] = "outb"           # output borrowing from the connection: OutB<'_>
     return m
 
 
@@ -412,6 +416,10 @@ def corpus_fixed():
         M("list_all", [P("a", u32o), P("b", stro, "B")],
           [[["none"], ["none"]], [["some", ["n", "1"]], ["some", ["s", "x"]]]]),
         M("watch_2_things", [P("kind", ["str"])], [[["s", "k"]]], more=True),
+        M("get_url", [P("id", ["u64"])], [[["n", "18446744073709551615"]]], rename="GetURL", out="outb"),
+        M("pair_up", [P("left", ["str"], "l"), P("right", ["opt", ["slice", ["str"]], ""])],
+          [[["s", "x"], ["none"]], [["s", "x"], ["some", ["arr", [["s", "p"], ["s", "q"]]]]]],
+          lifetimes="explicit2", out="unit"),
         M("notify", [P("msg", ["string"], "message"), P("prio", u32o)],
           [[["s", "hi"], ["none"]], [["s", "hi"], ["some", ["n", "3"]]]], oneway=True, out="unit"),
     ]}
@@ -470,8 +478,28 @@ def forms_of(m):
     return f
 
 
+def param_lifetimes(m):
+    """Lifetime name used for each parameter's type (None = elided)."""
+    if m["lifetimes"] == "elided":
+        return [None] * len(m["params"])
+    if m["lifetimes"] == "explicit":
+        return ["'a"] * len(m["params"])
+    out, i = [], 0
+    for p in m["params"]:           # explicit2: reference-carrying parameters alternate 'a / 'b
+        if has_ref(p["ty"]):
+            out.append(["'a", "'b"][i % 2])
+            i += 1
+        else:
+            out.append("'a")
+    return out
+
+
+def out_type(m):
+    return {"unit": "()", "out": "Out", "outb": "OutB<'_>"}[m["out"]]
+
+
 def render_method_sig(m):
-    lt = "'a" if m["lifetimes"] == "explicit" else None
+    lts = param_lifetimes(m)
     attrs = []
     parts = []
     if m["rename"] is not None:
@@ -485,8 +513,10 @@ def render_method_sig(m):
     if parts:
         attrs.append("    #[zlink(%s)]" % ", ".join(parts))
     gens = []
-    if lt:
-        gens.append(lt)
+    if m["lifetimes"] == "explicit":
+        gens.append("'a")
+    elif m["lifetimes"] == "explicit2":
+        gens += ["'a", "'b"]
     wh = []
     for p in m["params"]:
         if p["ty"][0] == "gen":
@@ -497,10 +527,10 @@ def render_method_sig(m):
                 wh.append("%s: Serialize + std::fmt::Debug" % p["gname"])
     g = "<%s>" % ", ".join(gens) if gens else ""
     ps = ["&mut self"]
-    for p in m["params"]:
+    for p, lt in zip(m["params"], lts):
         a = ("#[zlink(rename = %s)] " % rust_str(p["rename"])) if p["rename"] is not None else ""
         ps.append("%s%s: %s" % (a, p["name"], rust_type(p["ty"], lt, p.get("gname"))))
-    out_t = "()" if m["out"] == "unit" else "Out"
+    out_t = out_type(m)
     if m["oneway"]:
         ret = "zlink::Result<()>"
     elif m["more"]:
@@ -533,7 +563,7 @@ def render_trait(t):
         L.append(render_method_sig(m))
     L.append("    }")
     for mi, m in enumerate(t["methods"]):
-        out_t = "()" if m["out"] == "unit" else "Out"
+        out_t = out_type(m)
         np = len(m["params"])
         names = ["a%d" % i for i in range(np)]
         # argument vectors: a match on k binding a0..an
@@ -811,6 +841,13 @@ pub struct Item {
 #[derive(Debug, Clone, Serialize)]
 pub struct Pair<'a> {
     pub key: &'a str,
+    pub n: i64,
+}
+
+#[derive(Debug, Deserialize)]
+pub struct OutB<'a> {
+    #[serde(borrow)]
+    pub s: &'a str,
     pub n: i64,
 }
 
